@@ -1,46 +1,7 @@
 ------------------------------- MODULE Gen_Fam -------------------------------
-(***************************************************************************)
-(* Lookahead-set families (C01, C07, C08): every way to give each string   *)
-(* of length L over the terminals to production group X, to group Y or to  *)
-(* neither.  The grammar  S: X | Y;  X: <its strings>;  Y: <its strings>;  *)
-(* makes S's lookahead sets exactly these two families, so S needs k = L   *)
-(* whenever the groups share a prefix of length L-1, and its lookahead     *)
-(* automaton is an arbitrary two-coloured trie of depth L - minimisation   *)
-(* merges equivalent interior states in every possible pattern (shared     *)
-(* sub-automata, back edges in the state numbering).  The language is the  *)
-(* set of assigned strings.                                                 *)
-(***************************************************************************)
-EXTENDS Grammar, TLC, Json
-CONSTANTS NTerm,        \* number of terminals (taken from a, b, c)
-          L,            \* string length
-          LangN, Shard, NShards
-
-TsSeq == SubSeq(<<"a", "b", "c">>, 1, NTerm)
-N == NTerm
-RECURSIVE Pow(_, _)
-Pow(b, e) == IF e = 0 THEN 1 ELSE b * Pow(b, e - 1)
-NStr == Pow(N, L)
-StrOf(i) == [j \in 1..L |-> TsSeq[((i \div Pow(N, L - j)) % N) + 1]]
-
-VARIABLES i, asg, done
-vars == <<i, asg, done>>
-Init == i = 0 /\ asg = <<>> /\ done = FALSE
-Code(c) == CASE c = "X" -> 0 [] c = "Y" -> 1 [] OTHER -> 2
-\* symmetry: the first assigned string goes to X; sharding on the first three choices
-Allowed(c) == /\ (c = "Y" => \E j \in 1..Len(asg) : asg[j] = "X")
-              /\ (Len(asg) = 2 => (Code(asg[1]) * 9 + Code(asg[2]) * 3 + Code(c)) % NShards = Shard)
-Next == \/ ~done /\ i < NStr /\ \E c \in {"X", "Y", "-"} : Allowed(c) /\ asg' = Append(asg, c) /\ i' = i + 1 /\ UNCHANGED done
-        \/ ~done /\ i = NStr /\ done' = TRUE /\ UNCHANGED <<i, asg>>
-Spec == Init /\ [][Next]_vars
-
-Of(c) == {j \in 1..Len(asg) : asg[j] = c}
-RECURSIVE ProdsOfSet(_, _)
-ProdsOfSet(nt, S) == IF S = {} THEN <<>>
-                     ELSE LET j == CHOOSE x \in S : \A y \in S : x <= y
-                          IN <<[lhs |-> nt, rhs |-> StrOf(j - 1)]>> \o ProdsOfSet(nt, S \ {j})
-G == [start |-> "S", nts |-> {"S", "X", "Y"},
-      prods |-> <<[lhs |-> "S", rhs |-> <<"X">>], [lhs |-> "S", rhs |-> <<"Y">>]>> \o ProdsOfSet("X", Of("X")) \o ProdsOfSet("Y", Of("Y"))]
-Interesting == Of("X") # {} /\ Of("Y") # {}
+(* C01 / C08: the lookahead-set families of FamEnum.tla with their (finite) language. *)
+EXTENDS FamEnum
+CONSTANTS LangN
 Vec == [g |-> [start |-> G.start, nts |-> G.nts, prods |-> G.prods], n |-> LangN, lang |-> Lang(G, LangN)]
 Emit == (done /\ Interesting) => PrintT(<<"VEC", ToJson(Vec)>>)
 \* the language is exactly the assigned strings
